@@ -76,8 +76,8 @@ var allMethods = []string{"GET", "POST", "PUT", "DELETE", "PATCH", "HEAD", "OPTI
 var (
 	hostLabels = []string{"api", "v2", "my-svc", "example", "internal", "eu-west-1", "x_y", "graph", "cdn"}
 	tlds       = []string{"com", "io", "co.uk", "org", "local"}
-	plainSegs  = []string{"users", "v1", "items", "orders", "a", "health", "me", "posts"}
-	dotSegs    = []string{"v1.0", "file.json", "a.b.c", "index.html"}
+	plainSegs  = []string{"users", "v1", "items", "orders", "a", "health", "me", "posts", "Accounts", "V4", "getUser"}
+	dotSegs    = []string{"v1.0", "file.json", "a.b.c", "index.html", "Messages.json"}
 	// characters special to regular expressions that are legal (or at least accepted by HAProxy) in a
 	// request path. '?' and '#' cannot occur in txn.url (query / fragment are cut off) and are left
 	// out; "++" "*+" "(?" are left out because RE2 and PCRE read them differently.
@@ -101,7 +101,7 @@ type patInfo struct {
 }
 
 func isParam(s string) bool {
-	return strings.HasPrefix(s, "{") && strings.HasSuffix(s, "}") && len(s) > 2
+	return strings.HasPrefix(s, "{") && strings.HasSuffix(s, "}")
 }
 
 func (p patInfo) render() string {
